@@ -147,6 +147,19 @@ def oracle(rep):
                                   {"kind": "document", "version": v, "file": fn, "path": path, "names": orig, "snake": conv,
                                    "theorem": "C10_roundtrip / C10_injective (whole documents)"})
     rep.coverage["whole_documents"] = n_docs
+    # data types AT THE POSITIONS where the payload classes use them (walk from each request / response class through
+    # its annotations into the schema node of that position)
+    from harness import tables as T
+    for pkg in ("v16", "v201"):
+        probs, _ = T.walk(pkg)
+        rep.count("position-walk:" + pkg)
+        for pr in probs:
+            if pr[0] == "nested-field":
+                rep.violation("C10:nested-field:%s:%s" % (pkg, ":".join(map(str, pr[1:]))),
+                              "%s %s.%s: the data type %s used at that position has the field %s, whose camelCase form the "
+                              "schema does not define there" % (pkg, pr[1], pr[2], pr[3], pr[4]),
+                              {"kind": "position", "package": pkg, "class": pr[1], "field": pr[2], "datatype": pr[3],
+                               "datatype_field": pr[4], "theorem": "C10_fields_datatypes (per position: Props/C11.v C11_walk_clean)"})
     for (pkg, modname, name, fields) in class_fields():
         if modname == "datatypes":
             cam = [impl_s2c(f) for f in fields]
